@@ -29,6 +29,7 @@ func VerifH_autoconfigure4() {
 	r, stop := Handler4(req, resp)
 
 	vnd.Assert(r != nil || stop, "C13 a built-in handler returns a nil response only together with stop")
+	vnd.Assert(r != nil || stop, "C01 no handler passes a nil response on to its successors (they would dereference it)")
 	got, present := resp.Options[uint8(dhcpv4.OptionAutoConfigure)]
 	if !isOffer || !unassigned {
 		vnd.Cover("not-concerned")
